@@ -257,9 +257,12 @@ class Oracle:
         wr = np.atleast_1d(self._re(w))
         zr, wr = np.broadcast_arrays(zr, wr)
         w_const = not np.iscomplexobj(w)
-        if np.any(np.abs(zr) < MARGIN):
-            raise Skip("domain:pow-base-near-zero")
-        neg = zr < 0
+        zero = np.abs(zr) < MARGIN
+        if np.any(zero):
+            # x**k is smooth at 0 only for a constant integer exponent k >= 1
+            if not w_const or not np.all(_int_valued(wr[zero])) or np.any(wr[zero] < 1) or np.any(wr[zero] > 8):
+                raise Skip("domain:pow-base-near-zero")
+        neg = (zr < 0) & ~zero
         if np.any(neg):
             if not w_const:
                 raise Skip("domain:pow-negative-base-ad-exponent")
@@ -270,12 +273,25 @@ class Oracle:
         wc = w if not isinstance(w, (int, float)) else np.full((1, 1), float(w))
         m = max(zc.shape[0], np.asarray(wc).shape[0])
         negc = np.broadcast_to(neg, (m,))[:, None]
+        zeroc = np.broadcast_to(zero, (m,))[:, None]
         zz = np.where(negc, -zc, zc)
+        zz = np.where(zeroc, 1.0, zz)
         res = np.exp(wc * np.log(zz))
         if np.any(neg):
             k = np.broadcast_to(np.round(wr), (m,))[:, None]
             sign = np.where(negc, np.where(np.mod(k, 2) == 0, 1.0, -1.0), 1.0)
             res = res * sign
+        if np.any(zero):
+            # integer powers by repeated multiplication on the rows with a (near-)zero base
+            width = max(zc.shape[1], res.shape[1])
+            zb = np.broadcast_to(zc, (m, width))
+            kk = np.broadcast_to(np.round(wr), (m,)).astype(int)
+            res = np.broadcast_to(np.asarray(res, dtype=complex), (m, width)).copy()
+            for i in np.flatnonzero(np.broadcast_to(zero, (m,))):
+                r = np.ones(res.shape[1], dtype=complex)
+                for _ in range(kk[i]):
+                    r = r * zb[i]
+                res[i] = r
         return res
 
     def _bin(self, op, a, b):
@@ -395,12 +411,18 @@ class Oracle:
             if t == "bin":
                 return self._note(self._bin(e[1], a, b))
             ar, br = np.atleast_1d(self._re(a)), np.atleast_1d(self._re(b))
-            if np.any(np.abs(ar - br) < MARGIN):
-                raise Skip("kink:maximum-equal-arguments")
             m = max(np.shape(a)[0] if hasattr(a, "shape") else 1, np.shape(b)[0] if hasattr(b, "shape") else 1)
             K = self.X.shape[1]
             ac = np.broadcast_to(np.asarray(a, dtype=complex) if hasattr(a, "shape") else complex(a), (m, K))
             bc = np.broadcast_to(np.asarray(b, dtype=complex) if hasattr(b, "shape") else complex(b), (m, K))
+            eq = np.broadcast_to(np.abs(ar - br) < MARGIN, (m,))
+            if np.any(eq):
+                # equal entries: a kink unless values are exactly equal and both arguments
+                # have the same derivative there (then the maximum is differentiable)
+                same = np.broadcast_to(ar == br, (m,))[eq]
+                da, db = ac[eq].imag / H, bc[eq].imag / H
+                if not (np.all(same) and np.all(np.abs(da - db) <= 1e-12 * max(1.0, float(np.max(np.abs(da))) if da.size else 1.0))):
+                    raise Skip("kink:maximum-equal-arguments")
             pick_b = np.broadcast_to(br > ar, (m,))[:, None]
             return self._note(np.where(pick_b, bc, ac))
         if t == "mm":
@@ -803,5 +825,43 @@ def points(n: int, tier: str):
             (v(large, 0, "alt2"), v(large, 1, "pos")),
             (v(small, 2, "alt"), v(small, 0, "alt2")),
             (v(mixed, 0, "neg"), v(large, 2, "neg")),
+        ]
+    return P
+
+
+# letters whose derivative formula has a guarded special case / a branch on the value
+GUARDED = {"l2_norm1", "l2_norm2", "l2_norm3", "safe_power_a", "safe_power_b", "abs", "heaviside", "heaviside_smooth", "heaviside_smooth_e", "characteristic", "max"}
+
+
+def special_points(n: int, tier: str):
+    """Points with exact 0.0, 1.0 and -1.0 entries. In Z0..Z2 entry i of x is exactly 0
+    when i % 3 == j, so that for l2_norm with dim 2 and 3 a single zero component occurs
+    in every position of an otherwise non-zero vector; V has +-1 entries and no zeros
+    (abs / heaviside away from their kink); ZZ (thorough) has two zero components per
+    3-vector. Evaluated only for programs containing a letter of ``GUARDED``."""
+    unit = [1.0, -1.0, 0.5]
+    mixed = [0.7, -1.3, 0.3]
+
+    def cyc(base, shift):
+        return np.array([base[(i + shift) % 3] for i in range(n)], dtype=float)
+
+    def zero_at(vec, js):
+        out = vec.copy()
+        for i in range(n):
+            if i % 3 in js:
+                out[i] = 0.0
+        return out
+
+    P = [
+        (zero_at(cyc(mixed, 0), (0,)), cyc(unit, 0)),
+        (zero_at(cyc(unit, 1), (1,)), cyc(unit, 2)),
+        (zero_at(cyc(mixed, 2), (2,)), zero_at(cyc(unit, 1), (0,))),
+        (cyc(unit, 0), cyc([-1.0, 0.5, 1.0], 0)),
+    ]
+    if tier == "thorough":
+        P += [
+            (zero_at(cyc(mixed, 1), (0, 1)), cyc(unit, 1)),
+            (zero_at(cyc(unit, 0), (1, 2)), zero_at(cyc(mixed, 0), (1,))),
+            (cyc([0.0, 1.0, -1.0], 0), cyc([1.0, 0.0, -1.0], 1)),
         ]
     return P
